@@ -159,8 +159,11 @@ func c13Rule(conds []client.Condition) client.Rule {
 		c.Parent = "rule1"
 		r.Conditions = append(r.Conditions, c)
 	}
-	r.Actions = []client.Action{{ID: "act1", Parent: "rule1", Action: data.PointValueSetValue, NodeID: "target", PointType: "out", ValueType: data.PointValueNumber, Value: 42, ValueText: "on-text"}}
-	r.ActionsInactive = []client.Action{{ID: "inact1", Parent: "rule1", Action: data.PointValueSetValue, NodeID: "target", PointType: "out", ValueType: data.PointValueNumber, Value: 7}}
+	// two actions per list (different targets, number / on-off / text values): every action of a list runs
+	r.Actions = []client.Action{{ID: "act1", Parent: "rule1", Action: data.PointValueSetValue, NodeID: "target", PointType: "out", ValueType: data.PointValueNumber, Value: 42, ValueText: "on-text"},
+		{ID: "act2", Parent: "rule1", Action: data.PointValueSetValue, NodeID: "target2", PointType: "flag", ValueType: data.PointValueOnOff, Value: 1}}
+	r.ActionsInactive = []client.Action{{ID: "inact1", Parent: "rule1", Action: data.PointValueSetValue, NodeID: "target", PointType: "out", ValueType: data.PointValueNumber, Value: 7},
+		{ID: "inact2", Parent: "rule1", Action: data.PointValueSetValue, NodeID: "target2", PointType: "msg", ValueType: data.PointValueText, ValueText: "off-text"}}
 	return r
 }
 
@@ -181,9 +184,11 @@ func c13Expect(condActive []bool, newCond []bool, ruleActive *bool) []c13Pub {
 		*ruleActive = all
 		exp = append(exp, c13Pub{"p.rule1", data.PointTypeActive, data.BoolToFloat(all), "", ""})
 		if all {
-			exp = append(exp, c13Pub{"p.target", "out", 42, "on-text", "rule1"}, c13Pub{"p.act1", data.PointTypeActive, 1, "", "rule1"}, c13Pub{"p.inact1", data.PointTypeActive, 0, "", "rule1"})
+			exp = append(exp, c13Pub{"p.target", "out", 42, "on-text", "rule1"}, c13Pub{"p.act1", data.PointTypeActive, 1, "", "rule1"}, c13Pub{"p.inact1", data.PointTypeActive, 0, "", "rule1"},
+				c13Pub{"p.target2", "flag", 1, "", "rule1"}, c13Pub{"p.act2", data.PointTypeActive, 1, "", "rule1"}, c13Pub{"p.inact2", data.PointTypeActive, 0, "", "rule1"})
 		} else {
-			exp = append(exp, c13Pub{"p.target", "out", 7, "", "rule1"}, c13Pub{"p.inact1", data.PointTypeActive, 1, "", "rule1"}, c13Pub{"p.act1", data.PointTypeActive, 0, "", "rule1"})
+			exp = append(exp, c13Pub{"p.target", "out", 7, "", "rule1"}, c13Pub{"p.inact1", data.PointTypeActive, 1, "", "rule1"}, c13Pub{"p.act1", data.PointTypeActive, 0, "", "rule1"},
+				c13Pub{"p.target2", "msg", 0, "off-text", "rule1"}, c13Pub{"p.inact2", data.PointTypeActive, 1, "", "rule1"}, c13Pub{"p.act2", data.PointTypeActive, 0, "", "rule1"})
 		}
 	}
 	return exp
@@ -505,7 +510,7 @@ func TestC13(t *testing.T) {
 			nb, steps = 3, 6
 		}
 		r.Explore(mc.Config{Name: fmt.Sprintf("point-conditions-b%d", nb), Serial: true, SplitDepth: 2,
-			Rule: fmt.Sprintf("rule configurations: each of 72 single point conditions (number > < = !=, on/off, text = != contains; filters by node/type/key) and all ordered pairs over a reduced set, with one set-value action and one inactive action x all sequences of %d single-point batches over a 64-point alphabet (2 nodes x 2 types x 2 keys x values {4,5,6,0,1} / texts {ab,xaby,a}); after every batch everything the rule published is compared with a reference interpreter (condition active points, rule active point, action set-value with the rule as origin, action/inactive-action active points, nothing when nothing changes)", nb)},
+			Rule: fmt.Sprintf("rule configurations: each of 72 single point conditions (number > < = !=, on/off, text = != contains; filters by node/type/key) and all ordered pairs over a reduced set, with two set-value actions (number+text, on/off) and two inactive actions (number, text) x all sequences of %d single-point batches over a 64-point alphabet (2 nodes x 2 types x 2 keys x values {4,5,6,0,1} / texts {ab,xaby,a}); after every batch everything the rule published is compared with a reference interpreter (condition active points, rule active point, action set-value with the rule as origin, action/inactive-action active points, nothing when nothing changes)", nb)},
 			c13PointsBody(t, nb, false))
 		nb2 := 1 // (two batches of up to two points would be 17 M sequences per rule configuration)
 		r.Explore(mc.Config{Name: fmt.Sprintf("point-conditions-two-point-batches-b%d", nb2), Serial: true, SplitDepth: 2,
